@@ -227,6 +227,7 @@ func init() {
 		return fr.runBody(a)
 	})
 	reg("strings.Clone", func(fr *frame, a []Value) Value { return a[0] })
+	reg("internal/stringslite.Clone", func(fr *frame, a []Value) Value { return a[0] })
 	reg("strings.Join", func(fr *frame, a []Value) Value {
 		in := fr.in
 		elems := a[0].([]Value)
@@ -504,6 +505,7 @@ func init() {
 	})
 	reg("(*debug/elf.File).Close", func(fr *frame, a []Value) Value { return Iface{} })
 	reg("errors.init", func(fr *frame, a []Value) Value { return nil })
+	reg("path/filepath.Glob", func(fr *frame, a []Value) Value { return Tuple{[]Value(nil), Iface{}} })
 	reg("runtime.GC", func(fr *frame, a []Value) Value { return nil })
 	reg("runtime.Gosched", func(fr *frame, a []Value) Value { return nil })
 	reg("runtime.KeepAlive", func(fr *frame, a []Value) Value { return nil })
